@@ -12,7 +12,9 @@ LEVEL = 'proof'
 # translator ties (tools/py2v.py typed method translator): unit of Gen/STATUS.json -> the file proving generated = model.
 # A unit the translator rejects falls back to the correspondence streams below on a denser grid (run.py records it in
 # coverage.translator_fallback); a GenTie lemma that no longer checks is a broken obligation of C16 and widens the search.
-GEN_TIES = {'Threshold': 'Props/GenTie_Threshold.v', 'Approval': 'Props/GenTie_Approval.v', 'Openlist': 'Props/GenTie_Openlist.v'}
+GEN_TIES = {'Threshold': 'Props/GenTie_Threshold.v', 'Approval': 'Props/GenTie_Approval.v', 'Openlist': 'Props/GenTie_Openlist.v',
+            # wave 7 (tools/py2v.py part 6): the whole of ThresholdOpenList.evaluate; Tie.any / Tie.break_by_list / ListOrderTieBreaker.evaluate
+            'OpenlistEval': 'Props/GenTie_OpenlistEval.v', 'TieBreak': 'Props/GenTie_TieBreak.v'}
 TIE = {'threshold.py AbsoluteThreshold / RelativeThreshold evaluate (acceptance predicate and whole body), AlternativeThresholds (union)':
            'translator (Gen/Threshold.v regenerated on every run; Props/GenTie_Threshold.v proves it equal to passes / sel_eval of '
            'Model/Threshold.v) + correspondence',
@@ -23,7 +25,13 @@ TIE = {'threshold.py AbsoluteThreshold / RelativeThreshold evaluate (acceptance 
            'the filter of qsel_evaluate) + correspondence (quota-selector stream: C09 model unit, votes placed on the quota)',
        'openlist.ThresholdOpenList jump threshold (fraction of the total, quota, max / min) and jump test (the jumping comprehension)':
            'translator (Gen/Openlist.v, Props/GenTie_Openlist.v: = ol_threshold / ol_jumping) + correspondence',
-       'openlist.ThresholdOpenList constructor (quota_fraction wrapper), cut to n seats / list precedence / fill-up, ListOrderTieBreaker / Tie.break_by_list': 'correspondence',
+       'openlist.ThresholdOpenList.evaluate as a whole (threshold, jumping, cut to n seats by votes or with list precedence, fill-up loop with break)':
+           'translator (Gen/OpenlistEval.v, Props/GenTie_OpenlistEval.v tie_ol_evaluate: = openlist_eval for a votes dictionary whose candidates '
+           'are on the list; ValueError of a jumper missing from the list as a result) + correspondence',
+       'core.Tie.any / Tie.break_by_list, openlist.ListOrderTieBreaker.evaluate (whole bodies)':
+           'translator (Gen/TieBreak.v, Props/GenTie_TieBreak.v: = break_by_list for ties inside the breaker list, IndexError / ValueError as '
+           'results) + correspondence (streams break-by-list, break-by-list-boundary)',
+       'openlist.ThresholdOpenList constructor (quota_fraction wrapper)': 'correspondence',
        'component/quota.py': 'translator (C02)'}
 RULE = ('corpus; threshold stream: Abs/Rel/Alternative (nested) with thresholds as Fraction/Decimal/int, vote totals built so that '
         'one candidate sits exactly on every threshold (e.g. 5 of 100 at 5 %), accept_equal both ways; bracketers by coalition size '
@@ -327,6 +335,50 @@ def gen_bl(rng, count):
         yield dict(unit='break_by_list', elected=el, list=lst)
 
 
+def gen_bl_boundary(rng, count):
+    """selections get_n_best cannot produce but ListOrderTieBreaker may meet (the shapes of seeded/C08-12, seeded/C16-14): ONE tie spread
+       over 3+ seats, SEVERAL ties in one result (interleaved with each other and with plain winners), the same tie given by differently
+       ordered member lists, a tie listed exactly / one more than its size (wrap-around), a one-member tie once / twice (IndexError)"""
+    for _ in range(count):
+        m = rng.randint(3, 9)
+        lst = list(range(1, m + 1))
+        rng.shuffle(lst)
+        pool = lst[:]
+        rng.shuffle(pool)
+        kind = rng.choice(['one-wide', 'several', 'several', 'wrap', 'single'])
+        el = []
+        if kind == 'one-wide':
+            k = rng.randint(3, m)
+            t = pool[:k]
+            el = [pool[i] for i in range(k, min(m, k + rng.randint(0, 2)))] + [t] * rng.randint(3, k)
+        elif kind == 'wrap':
+            k = rng.randint(2, min(4, m))
+            t = pool[:k]
+            el = [t] * (k + rng.randint(0, 2)) + [c for c in pool[k:k + rng.randint(0, 2)]]
+        elif kind == 'single':
+            t = pool[:1]
+            el = [pool[1]] * rng.randint(0, 1) + [t] * rng.randint(1, 2) + [pool[2:4]] * rng.randint(0, 2)
+        else:
+            # two or three disjoint ties, each listed up to its size, interleaved, plain winners in between
+            cuts = sorted(rng.sample(range(1, m), min(m - 1, rng.randint(2, 3))))
+            groups = [pool[a:b] for a, b in zip([0] + cuts, cuts + [m])]
+            ties = [g for g in groups if len(g) >= 2][:3]
+            singles = [g[0] for g in groups if len(g) == 1]
+            items = []
+            for t in ties:
+                for _j in range(rng.randint(1, len(t))):
+                    tt = t[:]
+                    if rng.random() < 0.5:
+                        rng.shuffle(tt)          # the same frozenset, enumerated differently
+                    items.append(tt)
+            items += singles
+            rng.shuffle(items)
+            el = items
+        if not any(isinstance(e, list) for e in el):
+            el.append(pool[:2])
+        yield dict(unit='break_by_list', elected=el, list=lst)
+
+
 def corpus():
     import os, json, glob
     for p in sorted(glob.glob(os.path.join(common.VERIF, 'corpus', ID, '*.json'))):
@@ -392,8 +444,9 @@ def explore(ctx, widen=1):
     run_cases(ctx, 'corpus', corpus())
     run_cases(ctx, 'thresholds', gen_thr(ctx.rng, ctx.n(2000, 30000) * widen * dense('Threshold')))
     run_cases(ctx, 'bracketers', gen_br(ctx.rng, ctx.n(800, 10000) * widen))
-    run_cases(ctx, 'openlist', gen_ol(ctx.rng, ctx.n(2500, 40000) * widen * dense('Openlist')))
-    run_cases(ctx, 'break-by-list', gen_bl(ctx.rng, ctx.n(500, 5000) * widen))
+    run_cases(ctx, 'openlist', gen_ol(ctx.rng, ctx.n(2500, 40000) * widen * max(dense('Openlist'), dense('OpenlistEval'))))
+    run_cases(ctx, 'break-by-list', gen_bl(ctx.rng, ctx.n(500, 5000) * widen * dense('TieBreak')))
+    run_cases(ctx, 'break-by-list-boundary', gen_bl_boundary(ctx.rng, ctx.n(1500, 15000) * widen * dense('TieBreak')))
     run_cases(ctx, 'quota-selector', gen_qsel_boundary(ctx.rng, ctx.n(800, 10000) * widen * dense('Approval')))
 
 
